@@ -9,7 +9,7 @@ NA = {
  "C08": "parseNetworkMessage and the message builders are pure functions of one byte string / one value; the simulated transport exercises them only incidentally (DESIGN.md section 9)",
  "C13": "pure function of (key vector, mask, responses, message); the system-level consequence (a bad certificate accepted) is covered by C09's independent verifier (DESIGN.md section 9)",
  "C14": "pure function of (keys, signer set, message, seed); no time, schedule or fault dimension (DESIGN.md section 9)",
- "C25": "arithmetic over the batch number and a work vector; a simulation of days reaches a few dozen of ~10^6 batches (DESIGN.md section 9)",
+ "C25": "arithmetic over the batch number and a work vector (schedule monotonicity, pool bound, exact distribution, work-monotone shares): a function of its arguments with no schedule, clock, fault or crash in it; the membership rig does perform real universal mints, but a simulation reaches a handful of the ~10^6 batches and work vectors, so it could only sample inputs (those mints are judged by C17, C21, C22, C28 and C29 instead) (DESIGN.md section 9)",
  "C32": "pure key-derivation and codec functions (DESIGN.md section 9)",
  "C33": "pure fixed-point arithmetic (DESIGN.md section 9)",
 }
@@ -30,13 +30,13 @@ m = {
  "setup_cmd": "cd /verif && ./check list",
  "hooks": {
    "guard": "verif",
-   "enable": "go build -tags verif (GOTOOLCHAIN=local go1.26.8, harness module /verif/sim with replace github.com/MixinNetwork/mixin => /repo)",
+   "enable": "go build -tags verif -overlay <generated> (GOTOOLCHAIN=local go1.26.8, harness module /verif/sim with replace github.com/MixinNetwork/mixin => /repo; the overlay holds rewritten copies of /repo/storage/*.go, produced at build time by /verif/sim/cmd/instrument from the working tree, in which store mutex acquisitions and Badger transaction boundaries call storage.SimPoint; /repo itself is not modified)",
    "baseline_off_cmd": "cd /repo && go test -vet=off -count=1 -timeout 25m ./...",
    "source_commits": [h.split()[0] for h in hooks][::-1],
    "add_only": True,
  },
  "engines": [
-   {"name": "verifsim", "path": "/verif/sim", "serves_properties": sorted(CHECKS), "kind_free_text": "deterministic discrete-event simulator with seeded fault injection over real kernel/p2p/storage code (rigs: cluster R1, single-node R1/k, store R3, nonce R4)"},
+   {"name": "verifsim", "path": "/verif/sim", "serves_properties": sorted(CHECKS), "kind_free_text": "deterministic discrete-event simulator with seeded fault injection over real kernel/p2p/storage code (rigs: cluster R1 with finalization injection and a Byzantine proposer driver, membership rig R1/k, store R3, concurrent store R3c, nonce R4)"},
  ],
  "checks": [],
  "not_applicable": [],
